@@ -288,6 +288,7 @@ fn twin_datetime(r: &mut Rng) {
             let ok = day >= dn_min() && day <= dn_max() && (n < 1_000_000_000 || (n < 2_000_000_000 && sod % 60 == 59));
             chk!("DateTime::from_timestamp", (x, n), guard(|| DateTime::from_timestamp(x, n).map(|d| (dn_of(d.naive_utc().date()), d.naive_utc().time().num_seconds_from_midnight() as i128, d.naive_utc().time().nanosecond()))), Ok(if ok { Some((day, sod, n)) } else { None }));
             chk!("TimeZone::timestamp_opt", (x, n), guard(|| Utc.timestamp_opt(x, n).single().map(|d| d.timestamp())), Ok(if ok { Some(x) } else { None }));
+            chk!("TimeZone::timestamp_opt at an offset", (x, n), guard(|| FixedOffset::east_opt(5400).unwrap().timestamp_opt(x, n).single().map(|d| (d.timestamp(), d.timestamp_subsec_nanos()))), Ok(if ok { Some((x, n)) } else { None }));
         }
         for (unit, name) in [(1000i128, "millis"), (1_000_000, "micros"), (1_000_000_000, "nanos")] {
             let secs = (x as i128).div_euclid(unit); let sub = (x as i128).rem_euclid(unit) * (1_000_000_000 / unit);
@@ -295,6 +296,9 @@ fn twin_datetime(r: &mut Rng) {
             let ok = day >= dn_min() && day <= dn_max();
             let got = guard(|| match name { "millis" => DateTime::from_timestamp_millis(x), "micros" => DateTime::from_timestamp_micros(x), _ => Some(DateTime::from_timestamp_nanos(x)) }.map(|d| (unix_s(d.naive_utc()), d.timestamp_subsec_nanos() as i128)));
             chk!("DateTime::from_timestamp_millis/micros/nanos", (x, name), got, Ok(if ok { Some((secs, sub)) } else { None }));
+            let fo = FixedOffset::west_opt(12_600).unwrap();
+            let gotz = guard(|| match name { "millis" => fo.timestamp_millis_opt(x).single(), "micros" => fo.timestamp_micros(x).single(), _ => Some(fo.timestamp_nanos(x)) }.map(|d| (unix_s(d.naive_utc()), d.timestamp_subsec_nanos() as i128)));
+            chk!("TimeZone::timestamp_millis_opt/micros/nanos", (x, name), gotz, Ok(if ok { Some((secs, sub)) } else { None }));
         }
     }
     // conversion to and from the system clock type preserves the instant (both sides of the epoch, whole and fractional seconds)
@@ -323,6 +327,39 @@ fn twin_datetime(r: &mut Rng) {
             let want = if total >= 0 { UNIX_EPOCH.checked_add(d) } else { UNIX_EPOCH.checked_sub(d) };
             let want = match want { Some(w) => w, None => continue };
             chk!("SystemTime::from(DateTime) in a leap second", (ts, ns), guard(|| SystemTime::from(dt)), Ok(want));
+        } }
+    }
+    // operator forms with core::time::Duration agree with the checked TimeDelta forms whenever those succeed (durations around 2^63 / 2^64 ns included)
+    {
+        use std::time::Duration;
+        let durs = [Duration::new(0, 0), Duration::new(0, 1), Duration::new(1, 0), Duration::new(86_399, 999_999_999), Duration::new(86_400, 0), Duration::new(9_223_372_036, 854_775_807),
+                    Duration::new(9_223_372_036, 854_775_808), Duration::new(9_223_372_037, 0), Duration::new(18_446_744_073, 709_551_616), Duration::new(10_000_000_000, 0),
+                    Duration::new(4_503_599_627_370_496, 0), Duration::new(9_223_372_036_854_775, 807_000_000), Duration::new(9_223_372_036_854_775, 807_000_001), Duration::new(u64::MAX, 999_999_999), Duration::new(u64::MAX / 2 + 1, 0)];
+        for &x in ndt_grid(r).iter().step_by(7) { for d in durs {
+            {
+                // NaiveTime wraps modulo a day for EVERY Duration (also those beyond the TimeDelta range)
+                let t = x.time();
+                chk!("NaiveTime += Duration", (t, d), guard(|| { let mut y = t; y += d; y }), guard(|| t + d));
+                chk!("NaiveTime -= Duration", (t, d), guard(|| { let mut y = t; y -= d; y }), guard(|| t - d));
+                if t.nanosecond() < 1_000_000_000 {
+                    let step = TimeDelta::new((d.as_secs() % 86_400) as i64, d.subsec_nanos()).unwrap();
+                    chk!("NaiveTime + Duration", (t, d), guard(|| t + d), Ok(t.overflowing_add_signed(step).0));
+                    chk!("NaiveTime - Duration", (t, d), guard(|| t - d), Ok(t.overflowing_sub_signed(step).0));
+                }
+            }
+            let td = match TimeDelta::from_std(d) { Ok(t) => t, Err(_) => continue };
+            if let Some(want) = x.checked_add_signed(td) {
+                chk!("NaiveDateTime + Duration", (x, d), guard(|| x + d), Ok(want));
+                chk!("NaiveDateTime += Duration", (x, d), guard(|| { let mut y = x; y += d; y }), Ok(want));
+                chk!("DateTime<Utc> + Duration", (x, d), guard(|| (x.and_utc() + d).naive_utc()), Ok(want));
+                chk!("DateTime<FixedOffset> += Duration", (x, d), guard(|| { let mut y = x.and_utc().fixed_offset(); y += d; y.naive_utc() }), Ok(want));
+            }
+            if let Some(want) = x.checked_sub_signed(td) {
+                chk!("NaiveDateTime - Duration", (x, d), guard(|| x - d), Ok(want));
+                chk!("NaiveDateTime -= Duration", (x, d), guard(|| { let mut y = x; y -= d; y }), Ok(want));
+                chk!("DateTime<Utc> - Duration", (x, d), guard(|| (x.and_utc() - d).naive_utc()), Ok(want));
+                chk!("DateTime<FixedOffset> -= Duration", (x, d), guard(|| { let mut y = x.and_utc().fixed_offset(); y -= d; y.naive_utc() }), Ok(want));
+            }
         } }
     }
     let xs = ndt_grid(r); let ds = td_small_grid(r);
@@ -394,6 +431,17 @@ fn twin_zoned(r: &mut Rng) {
         chk!("DateTime getters", (x, o), (z.year(), z.month(), z.day(), z.ordinal(), z.weekday(), z.hour(), z.minute(), z.second(), z.nanosecond()),
              (wall.year(), wall.month(), wall.day(), wall.ordinal(), wall.weekday(), wall.hour(), wall.minute(), wall.second(), wall.nanosecond()));
         chk!("DateTime::naive_local", (x, o), guard(|| z.naive_local()), Ok(wall));
+        // the difference of two zone-aware values is the distance of their instants, whatever the two offsets (by value, by reference, method form)
+        {
+            let other = xs[(i * 7 + 3) % xs.len()];
+            let o2 = offs[(i + 5) % offs.len()];
+            let z2 = FixedOffset::east_opt(o2).unwrap().from_utc_datetime(&other);
+            let want = x.signed_duration_since(other);
+            chk!("DateTime - DateTime (different offsets)", (x, o, other, o2), guard(|| z - z2), Ok(want));
+            chk!("DateTime - &DateTime (different offsets)", (x, o, other, o2), guard(|| z - &z2), Ok(want));
+            chk!("DateTime::signed_duration_since (different offsets)", (x, o, other, o2), guard(|| z.signed_duration_since(z2)), Ok(want));
+            chk!("DateTime::signed_duration_since<Utc>", (x, o, other), guard(|| z.signed_duration_since(other.and_utc())), Ok(want));
+        }
         for t in [NaiveTime::MIN, NaiveTime::from_hms_opt(23, 59, 59).unwrap(), NaiveTime::from_hms_opt(12, 0, 0).unwrap(), wall.time()] {
             chk!("DateTime::with_time", (x, o, t), guard(|| z.with_time(t).single().map(|d| (d.naive_utc(), d.offset().local_minus_utc()))), Ok(back(Some(wall.date().and_time(t))).map(|u| (u, o))));
         }
